@@ -101,13 +101,27 @@ def run(ctx, res):
     res.evaluations += len(seen)
     res.extra['name_for_id_exhaustive_upto'] = top
     # end to end: real luamin on programs; align names of input and output
-    for i in range(ctx.budget(150, 3000)):
-        src = gen_lua.gen_program(rng)[0]
+    import re
+    nprog = ctx.budget(150, 3000)
+    for i in range(nprog + 40):
+        if i < nprog:
+            src = gen_lua.gen_program(rng)[0]
+        else:
+            nm = rng.choice([b'again', b'a', b'foo', b'l\x99', b'top_1', b'b'])
+            src = b'n=0\n::' + nm + b'::\nn+=1\nif n<9 then goto ' + nm + b' end\n::' + nm + b'2:: goto ' + nm + b'2\n'
         cfg = rng.choice(['default', 'keepfile'])
-        keep = rng.sample([b'a', b'b', b'c', b'ba', b'foo', b'x'], 3) if cfg == 'keepfile' else []
+        keep = rng.sample([b'a', b'b', b'c', b'ba', b'foo', b'x', b'again'], 3) if cfg == 'keepfile' else []
         kp = M.write_keep_file(ctx, keep, 'e%d.txt' % (i % 20)) if keep else None
+        # the identifiers are those of `src`; the text given to luamin may spell its labels with blanks inside the `::` (legal Lua, the
+        # same identifiers in the same order)
+        given = src
+        if i % 3 == 0 or i >= nprog:
+            bl = rng.choice([b' ', b'\t', b'  ', b' \t'])
+            given = re.sub(br'::([A-Za-z_\x80-\xff][A-Za-z0-9_\x80-\xff]*)::', lambda m_: b'::' + bl + m_.group(1) + rng.choice([bl, b'']) + b'::', src)
+            if given != src:
+                res.count('labels-with-blanks')
         try:
-            out = M.minify([src], cfg, kp)
+            out = M.minify([given], cfg, kp)
             ti = [t for t in M.real_tokens([src]) if type(t).__name__ in ('TokName', 'TokLabel')]
             to = [t for t in M.real_tokens([out]) if type(t).__name__ in ('TokName', 'TokLabel')]
         except Exception:
@@ -117,7 +131,7 @@ def run(ctx, res):
         if len(ti) != len(to):
             continue   # token fusing is C01's subject
         strip = lambda t: t._data[2:-2] if type(t).__name__ == 'TokLabel' else t._data  # noqa: E731
-        check_relation(res, 'C02:program:%s:%s' % (cfg, hx(src)[:50]), {'source': hx(src), 'cfg': cfg, 'keep': [hx(k) for k in keep]},
+        check_relation(res, 'C02:program:%s:%s' % (cfg, hx(given)[:50]), {'source': hx(given), 'cfg': cfg, 'keep': [hx(k) for k in keep]},
                        [strip(t) for t in ti], [strip(t) for t in to], reserved, set(keep), False)
     # command line wiring of the keep options: `p8tool luamin [--keep-all-names | --keep-names-from-file F] cart` = the library minifier
     # with the same configuration (on .p8 and .p8.png carts)
